@@ -53,7 +53,12 @@ def _call_with_timeout(func: Callable[[], T], timeout_s: float) -> T:
     executor = ThreadPoolExecutor(max_workers=1)
     future = executor.submit(func)
     try:
-        return future.result(timeout=timeout_s)
+        # Ask for the exception explicitly: Future.result() tests the stored exception for
+        # truthiness, so an exception instance that is falsy would be dropped and None returned.
+        func_exc = future.exception(timeout=timeout_s)
+        if func_exc is not None:
+            raise func_exc
+        return future.result()
     except FutureTimeoutError as exc:
         if future.done() and not future.cancelled() and future.exception() is exc:
             # Raised by func itself (FutureTimeoutError is the builtin TimeoutError), not by
